@@ -9,7 +9,7 @@ from oracle_util import *  # noqa
 from protocol import from_real
 
 ID = "C16"
-LEAN_MODULE = ["SCoda.Props.C16", "SCoda.Props.C16b", "SCoda.Props.Purity", "SCoda.Props.C16c", "SCoda.Props.C16cW", "SCoda.Props.WrapTie", "SCoda.Props.ElemTie", "SCoda.Props.StaticLink", "SCoda.Props.HeapTie"]
+LEAN_MODULE = ["SCoda.Props.C16", "SCoda.Props.C16b", "SCoda.Props.Purity", "SCoda.Props.C16c", "SCoda.Props.C16cW", "SCoda.Props.WrapTie", "SCoda.Props.ElemTie", "SCoda.Props.StaticLink", "SCoda.Props.HeapTie", "SCoda.Props.HeapTie2", "SCoda.Props.HeapTieB"]
 EXTRA_TARGETS = ["heapdriver"]
 CLAUSES = [
     ("a message-wise copy holds the same message values as its original (equals: C17.refl)", ["SCoda.C16.copy_derive", "SCoda.C16.copyAll_spec"]),
@@ -53,6 +53,8 @@ CLAUSES = [
      ["SCoda.StaticLink.timesOfType_link", "SCoda.AbsTie2.getMessageTimesOfType_eq", "SCoda.AbsTie2.timesOfType_init"]),
     ('TIE BY TRANSLATION (identity level): Message.copy, AbstractSequence.copy, Sequence.__init__/copy/split, Bar.__init__/copy, Track.__init__/copy and Composition.copy, re-translated from the source on every run with respect to object identity (allocation, stores, returned references; Gen/HeapFns.lean over the cell heap of Model/HeapOps.lean; value decisions from the oracle exactly as HeapOps abstracts them — a scalar attribute the identity model does not carry, Bar.default_channel, is checked to be assigned scalars only and the one message built from it takes its value from the oracle; view-level normalise_relative / pad / conversions / RelativeSequence.split are links), are EQUAL (same heap, same identities) to the HeapOps steps msgCopy / copyView / seqCopy / split / barInit / barCopy / trkInit / trkCopy / cmpCopy, on heaps without dangling identities whose non-stale views exist and whose messages have a channel; hence the freshness facts hold of the translated routes. sequences_split_bars (its loop skeleton; its constituent steps are the tied functions) remains tied by the sampled heap-history correspondence',
      ["SCoda.HeapTie.messageCopy_eq", "SCoda.HeapTie.abstractSequenceCopy_eq", "SCoda.HeapTie.sequenceCopy_eq", "SCoda.HeapTie.sequenceSplit_eq", "SCoda.HeapTie.barInit_eq", "SCoda.HeapTie.barCopy_eq", "SCoda.HeapTie.trackInit_eq", "SCoda.HeapTie.trackCopy_eq", "SCoda.HeapTie.compositionCopy_eq", "SCoda.HeapTie.messageCopy_fresh", "SCoda.HeapTie.sequenceCopy_fresh", "SCoda.HeapTie.sequenceSplit_fresh", "SCoda.HeapTie.barCopy_fresh", "SCoda.HeapTie.trackCopy_fresh", "SCoda.HeapTie.compositionCopy_fresh", "SCoda.HeapTie.messageCopy_eq_statement_false"]),
+    ("TIE BY TRANSLATION (identity level, part 2): RelativeSequence.split ITSELF is re-translated from the source on every run with respect to object identity AND value (Gen/HeapFns2.lean: every Message(...) / RelativeSequence() allocates a cell, working_memory = copy.copy(self._messages) is a fresh list of the same references, add_message / append store references, integer decisions are translated exactly, no oracle) and proved, for every heap, receiver and list of capacities: it returns normally (the guard before pop(0) and the loop bound len(working_memory)+1 are sufficient); it WRITES NO CELL THAT EXISTED when it was called (the receiver's list object and messages included: the receiver is not consumed, a cut wait is replaced by two new waits and not shortened in place); every returned piece is a view allocated by the call holding message objects of the receiver's list and messages allocated by the call only (the pieces DO share messages with the receiver: the all-fresh statement is refuted by a kernel-checked example, replayed on the real code; the repair of D13 is the seq.copy() in Sequence.split); hence the region statement HeapL.splitView_spec that C16c uses of the link holds of the translated method (simulation, not equality: the code allocates view objects it discards and interleaves the allocation of the cut messages of two pieces). Sequence.split with NO link (sequenceSplit2) is the translated RelativeSequence.split followed by HeapOps.wrapCopies: every cell reachable from a returned Sequence was allocated by the call and is not reachable from the source, and every cell that existed keeps its content except possibly the source's own wrapper cell (a stale relative view is regenerated). sequences_split_bars: HeapOps.sbBar asks the oracle for the bar's scalars BEFORE quantise_note_lengths, the code evaluates the arguments of Bar(...) AFTER it; the two are proved equal on the heaps of the call site (the piece's absolute view stale or missing, or no relative view: every sequence_to_add is a wrapper the method has just built), refuted by a kernel-checked heap on which a live absolute view shares a message with the relative view, and the freshness calculus holds of either order; the loop skeleton of sequences_split_bars is still tied by the sampled heap-history correspondence only",
+     ["SCoda.HeapTie2.relativeSequenceSplit_ok", "SCoda.HeapTie2.relativeSequenceSplit_frame", "SCoda.HeapTie2.relativeSequenceSplit_receiver", "SCoda.HeapTie2.relativeSequenceSplit_pieces", "SCoda.HeapTie2.pieces_allFresh_statement_false", "SCoda.HeapTie2.relativeSequenceSplit_spec", "SCoda.HeapTie2.sequenceSplit2_eq_wrapCopies", "SCoda.HeapTie2.sequenceSplit2_fresh", "SCoda.HeapTieB.sbBar_order_agree", "SCoda.HeapTieB.sbBar_order_statement_false", "SCoda.HeapTieB.sbBarPy_spec", "SCoda.HeapTieB.pieceOk_wrapped", "SCoda.HeapTieB.pieceOk_empty"]),
 ]
 RULE = ("originals (<=6 notes, 1-2 channels, key signatures, control / program changes, time signatures anywhere for copy / split and on bar lines for the "
         "bar routes) x derivation routes (Sequence.copy, split, sequences_split_bars with "
